@@ -22,7 +22,7 @@ def build():
         if tag == "F-C16":
             build_c16(e)
             continue
-        if tag not in hazards.FAMILIES:
+        if tag not in hazards.FAMILIES or tag == "OWN-ITER":
             continue
         found = None
         for seed in range(5000):
